@@ -3,7 +3,11 @@
 
 package psatoken
 
-import cbor "github.com/fxamacker/cbor/v2"
+import (
+	"math"
+
+	cbor "github.com/fxamacker/cbor/v2"
+)
 
 var (
 	em, emError = initCBOREncMode()
@@ -32,4 +36,50 @@ func init() {
 	if dmError != nil {
 		panic(dmError)
 	}
+}
+
+// dropKeysBeyondInt64 removes from a CBOR map the unsigned integer keys above
+// math.MaxInt64. When matching map keys against keyasint struct fields the
+// CBOR decoder converts them to int64, so that such a key would be taken for
+// a negative one (2^64-75000 for -75000, the profile claim of
+// PSA_IOT_PROFILE_1). They are not claims of any profile and are ignored like
+// every other unknown key.
+func dropKeysBeyondInt64(buf []byte) ([]byte, error) {
+	suspect := false
+
+	// an unsigned (or negative) integer with an 8-byte argument whose most
+	// significant bit is set; a hit inside a string only costs time
+	for i := 0; i+1 < len(buf); i++ {
+		if buf[i] == 0x1b && buf[i+1] >= 0x80 {
+			suspect = true
+			break
+		}
+	}
+
+	if !suspect {
+		return buf, nil
+	}
+
+	var m map[interface{}]cbor.RawMessage
+
+	if err := dm.Unmarshal(buf, &m); err != nil {
+		// not a map of scalars to anything: the typed decoding will say so
+		return buf, nil //nolint:nilerr
+	}
+
+	dropped := false
+
+	for k := range m {
+		if u, ok := k.(uint64); ok && u > math.MaxInt64 {
+			delete(m, k)
+
+			dropped = true
+		}
+	}
+
+	if !dropped {
+		return buf, nil
+	}
+
+	return em.Marshal(m)
 }
